@@ -130,6 +130,11 @@ def cases(ctx):
             few = ctx.quick or src in ("G2", "GC")
             for a in assumption_sets(p, r, few):
                 yield {"op": "solve", "c": p, "assum": a, "src": src}
+    # histories on ONE Circuit object: solve, edit the circuit in place, solve again (a stale encoding must not be reused)
+    for i, p in enumerate(g2s[: (150 if ctx.quick else 1500)]):
+        r = ctx.rng("C01h", i)
+        yield {"op": "solve_history", "c": p, "edit": r.choice(["retype", "retype", "connect", "disconnect"]),
+               "assum": [assumption_sets(p, r, True)[-1], assumption_sets(p, r, True)[-1]], "salt": i, "src": "HIST"}
     from .. import gen
 
     for j in range(40 if ctx.quick else 400):
@@ -142,9 +147,54 @@ def cases(ctx):
             yield {"op": "solve", "c": p, "assum": a, "src": "G3"}
 
 
+def solve_event(cg, c, p, assum_idx):
+    ev = {"kind": "solve", "c": p, "assum": assum_idx, "exc": ""}
+    assum = {p["names"][i - 1]: b for i, b in assum_idx}
+    try:
+        res = cg.sat.solve(c, assum)
+        if res is False:
+            ev.update({"sat": False, "res": []})
+        else:
+            ev.update({"sat": True, "res": [bool(res[n]) for n in p["names"] if n in res]})
+    except Exception as e:
+        ev.update({"exc": type(e).__name__, "sat": False, "res": []})
+    ev["nontrivial"] = True
+    return ev
+
+
+def run_history(case, ctx):
+    import circuitgraph as cg
+
+    c = build(case["c"])
+    r = ctx.rng("C01hr", case["salt"])
+    evs = [solve_event(cg, c, proj(c), [])]
+    evs.append(solve_event(cg, c, proj(c), [[i, b] for i, b in case["assum"][0]]))
+    gates = sorted(n for n in c.nodes() if c.type(n) in ("and", "nand", "or", "nor", "xor", "xnor") and len(c.fanin(n)) >= 2)
+    if case["edit"] == "retype" and gates:
+        g = r.choice(gates)
+        c.set_type(g, r.choice([t for t in ("and", "nand", "or", "nor", "xor", "xnor") if t != c.type(g)]))
+    elif case["edit"] == "connect" and gates:
+        g = r.choice(gates)
+        src = [n for n in sorted(c.inputs()) if n not in c.fanin(g)]
+        if src:
+            c.connect(r.choice(src), g)
+    elif gates:
+        g = r.choice(gates)
+        c.disconnect(sorted(c.fanin(g))[0], g)
+    p2 = proj(c)
+    idx = {n: k + 1 for k, n in enumerate(p2["names"])}
+    names1 = case["c"]["names"]
+    a2 = [[idx[names1[i - 1]], b] for i, b in case["assum"][1] if names1[i - 1] in idx]
+    evs.append(solve_event(cg, c, p2, a2))
+    evs.append(solve_event(cg, c, p2, []))
+    return evs
+
+
 def run_case(case, ctx):
     import circuitgraph as cg
 
+    if case["op"] == "solve_history":
+        return run_history(case, ctx)
     p = case["c"]
     c = build(p)
     exc = ""
